@@ -424,6 +424,20 @@ func genOwnAttrs(t *rapid.T) []vlib.ExpAttr {
 	return out
 }
 
+// clobber overwrites every element of an argument slice after the call that received it returned: the caller
+// owns the slice and may reuse it (a logger that kept a reference to it would change its attributes now).
+func clobber(sl []slog.Attr) {
+	for i := range sl {
+		sl[i] = slog.NewAttr("clobbered-by-the-caller", i)
+	}
+}
+
+func clobberAny(sl []any) {
+	for i := range sl {
+		sl[i] = "clobbered-by-the-caller"
+	}
+}
+
 // slice values handed to several loggers (see setting.shared); rebuilt for every case
 var (
 	sharedExp  [2][]vlib.ExpAttr
@@ -577,7 +591,9 @@ func (w *world) doSet(n *node, s setting) *slog.Entry {
 	case "timeformat":
 		return lg.SetTimeFormat(s.layout...)
 	case "attrs":
-		return lg.SetAttrs(vlib.AttrsOf(s.attrs)...)
+		sl := []slog.Attr(vlib.AttrsOf(s.attrs))
+		defer clobber(sl)
+		return lg.SetAttrs(sl...)
 	case "attrs1":
 		if s.shared != nil {
 			return lg.SetAttrs1(s.shared)
@@ -591,6 +607,7 @@ func (w *world) doSet(n *node, s setting) *slog.Entry {
 		for _, a := range vlib.AttrsOf(s.attrs) {
 			args = append(args, a.Key(), a.Value())
 		}
+		defer clobberAny(args)
 		return lg.Set(args...)
 	case "skip":
 		lg.SetSkip(s.skip)
@@ -619,7 +636,9 @@ func (w *world) doWith(n *node, s setting, wid int) *slog.Entry {
 	case "timeformat":
 		return lg.WithTimeFormat(s.layout...)
 	case "attrs":
-		return lg.WithAttrs(vlib.AttrsOf(s.attrs)...)
+		sl := []slog.Attr(vlib.AttrsOf(s.attrs))
+		defer clobber(sl)
+		return lg.WithAttrs(sl...)
 	case "attrs1":
 		if s.shared != nil {
 			return lg.WithAttrs1(s.shared)
@@ -633,6 +652,7 @@ func (w *world) doWith(n *node, s setting, wid int) *slog.Entry {
 		for _, a := range vlib.AttrsOf(s.attrs) {
 			args = append(args, a.Key(), a.Value())
 		}
+		defer clobberAny(args)
 		return lg.With(args...)
 	case "skip":
 		return lg.WithSkip(s.skip)
@@ -921,5 +941,56 @@ func TestAnonymousChildrenDistinct(t *testing.T) {
 	vlib.Extra("anonymous_children_distinct", len(seen))
 	if dups > 0 {
 		vlib.Discrep(t, "C10/with-returns-new", "C10 %d of %d consecutive root.WithLevel(...) calls returned an already existing child instead of a new one (%d distinct names)", dups, n, len(names))
+	}
+}
+
+// TestManyChildren: lookup by name, WithSkip's one-child-per-count rule and the Each walk must hold for a logger
+// with many direct children as they do for one with a few (the index behind them may change its representation).
+func TestManyChildren(t *testing.T) {
+	defer vlib.Canon()()
+	for _, n := range []int{1, 7, 8, 9, 31, 32, 33, 34, 63, 64, 65, 127, 128, 129, 300, 1100} {
+		parent := slog.New(fmt.Sprintf("many-%d", n))
+		named := make([]*slog.Entry, n)
+		skipped := make([]*slog.Entry, n)
+		for i := 0; i < n; i++ {
+			named[i] = parent.New(fmt.Sprintf("worker-%d", i))
+			skipped[i] = parent.WithSkip(100 + i)
+			// every child created so far is still found, under its name / its count
+			for _, j := range []int{0, i / 2, i} {
+				if got := parent.New(fmt.Sprintf("worker-%d", j)); got != named[j] {
+					vlib.Discrep(t, "C10/lookup-by-name", "C10 a logger with %d direct children: New(%q) returned another logger than the child created under that name (its name: %q)", 2*(i+1), fmt.Sprintf("worker-%d", j), got.Name())
+					return
+				}
+				if got := parent.WithSkip(100 + j); got != skipped[j] {
+					vlib.Discrep(t, "C10/lookup-by-name", "C10 a logger with %d direct children: WithSkip(%d) returned another logger than the child kept for that count", 2*(i+1), 100+j)
+					return
+				}
+			}
+		}
+		visits := map[*slog.Entry]int{}
+		roots := 0
+		parent.Each(func(l *slog.Entry, depth int) {
+			visits[l]++
+			if depth == 0 {
+				roots++
+			} else if depth != 1 {
+				vlib.Discrep(t, "C10/tree", "C10 Each visited %q at depth %d: the tree has direct children only", l.Name(), depth)
+			}
+		})
+		if roots != 1 || len(visits) != 2*n+1 {
+			vlib.Discrep(t, "C10/tree", "C10 a logger with %d direct children: Each visited %d loggers (%d at depth 0), want %d", 2*n, len(visits), roots, 2*n+1)
+			return
+		}
+		for i := 0; i < n; i++ {
+			if visits[named[i]] != 1 || visits[skipped[i]] != 1 {
+				vlib.Discrep(t, "C10/tree", "C10 a logger with %d direct children: Each visited child #%d %d time(s) and its WithSkip sibling %d time(s), want once each (%d loggers visited in all)",
+					2*n, i, visits[named[i]], visits[skipped[i]], len(visits))
+				return
+			}
+		}
+		if got := parent.Sublogger(fmt.Sprintf("worker-%d", n-1)); got != named[n-1] {
+			vlib.Discrep(t, "C10/tree", "C10 a logger with %d direct children: Sublogger(%q) does not find the child of that name", 2*n, fmt.Sprintf("worker-%d", n-1))
+		}
+		vlib.Case("TestManyChildren", fmt.Sprintf("children-%d", 2*n), "many-children")
 	}
 }
